@@ -35,3 +35,13 @@ Example C12_runs :
   let b : vec ZS := fun i => nth i [5; 10; 8]%Z 0%Z in
   (map (lu_solve 3 A b) [0; 1; 2], map (mvec 3 A (lu_solve 3 A b)) [0; 1; 2]) = ([1; 2; 3]%Z, [5; 10; 8]%Z).
 Proof. vm_compute. reflexivity. Qed.
+
+(** * SimpleInvPiv: inverse / solve through the pre-pivoted matrix.  If X inverts P*A (rows of A gathered
+    by a bijection P) then reconstruct_colwise(X,P), as written in unary_piv_op.h, inverts A - over any scalar. *)
+From FastorV Require Import Model.Pivot Proofs.PivotProofs.
+Theorem C12_colwise_reconstruction_inverts :
+  forall (S : Scalar) n (A X : nat -> nat -> S) P, bij n P ->
+    (forall i j, (i < n)%nat -> (j < n)%nat -> mmf S n (fun r c => A (P r) c) X i j = if (i =? j)%nat then s1 S else s0 S) ->
+    forall r q, (r < n)%nat -> (q < n)%nat -> mmf S n A (reconstruct_colwise n X P) r q = if (r =? q)%nat then s1 S else s0 S.
+Proof. exact colwise_inverse. Qed.
+Print Assumptions C12_colwise_reconstruction_inverts.
